@@ -15,6 +15,7 @@ theorem callerPanic_fire (v : Variant) {s s' : S} {l : Label} (hrec : Gen.Shutdo
     · simp only [Option.some.injEq] at h; subst h; simp [closeStep, hrec]
     · cases h
   | cancel => simp only [fire, Option.some.injEq] at h; subst h; rfl
+  | fatal => simp only [fire, Option.some.injEq] at h; subst h; rfl
   | post e => cases e <;> simp only [fire, postEv, Option.some.injEq, reduceCtorEq] at h <;> first | (subst h; rfl) | cases h
   | begin =>
     simp only [fire] at h
